@@ -3,6 +3,10 @@
 /tmp/wt/<PROP>.prompt.txt for an independent seeding sub-agent (property text only, nothing from /verif)."""
 import json, subprocess, sys, os
 p = sys.argv[1]
+extra = ('\nOther testers have already tried the first ideas that come to mind for this property. Spend some time reading the '
+         'anchor files and their callers first, and prefer mechanisms, code paths and clauses of the property that are NOT the most '
+         'obvious targets (less travelled branches, equivalent entry points, helper functions shared with other features, interactions '
+         'between two features).\n') if len(sys.argv) > 2 and sys.argv[2] == 'deep' else ''
 prop = next(json.loads(l) for l in open('/verif/properties.jsonl') if json.loads(l)['id'] == p)
 os.makedirs('/tmp/wt', exist_ok=True)
 wt = f'/tmp/wt/{p}'
@@ -29,6 +33,6 @@ Procedure for each change k = 1, 2:
   3. `git -C {wt} checkout -- .` to restore, then run the demo on the unchanged tree (must pass, exit 0).
 Finally write /tmp/wt/{p}_meta.json: a list of two objects {{"patch": "...", "demo": "...", "breaks": "<which clause of the property is broken>", "needs": "<what specific sequence/input/configuration is needed for it to manifest>", "why_tests_pass": "..."}}.
 Leave {wt} clean (`git status --short` empty) at the end. Report briefly what the two changes are.
-"""
+{extra}"""
 open(f'/tmp/wt/{p}.prompt.txt', 'w').write(tmpl)
 print(f'/tmp/wt/{p}.prompt.txt')
